@@ -240,7 +240,12 @@ pub fn thrift_docs() -> Vec<SDoc> {
         decls: vec![
             Decl { name: "Tag".into(), kind: DeclKind::Enum(vec![("A".into(), 1), ("B".into(), 5)]) },
             Decl { name: "Count".into(), kind: DeclKind::Typedef(STy::I32) },
-            Decl { name: "Meta".into(), kind: DeclKind::Struct(vec![f(1, "id", Default, STy::String), f(2, "tag", Optional, named(1, "Tag"))]) },
+            Decl { name: "KBASE".into(), kind: DeclKind::Const(STy::I32, Lit::Int(7)) },
+            Decl { name: "KUNIT".into(), kind: DeclKind::Const(STy::String, Lit::Str("ms".into())) },
+            Decl {
+                name: "Meta".into(),
+                kind: DeclKind::Struct(vec![f(1, "id", Default, STy::String), f(2, "tag", Optional, named(1, "Tag")), fd(3, "lvl", Optional, STy::I32, Lit::Const(1, "KBASE".into())), fd(4, "unit", Default, STy::String, Lit::Const(1, "KUNIT".into()))]),
+            },
         ],
     };
     let shop = SFile {
@@ -252,6 +257,22 @@ pub fn thrift_docs() -> Vec<SDoc> {
             Decl { name: "TagAlias".into(), kind: DeclKind::Typedef(named(0, "TagT")) },
             Decl { name: "Count2".into(), kind: DeclKind::Typedef(named(1, "Count")) },
             Decl { name: "Flag".into(), kind: DeclKind::Typedef(STy::Bool) },
+            Decl { name: "Switch".into(), kind: DeclKind::Typedef(named(0, "Flag")) },
+            // constants of the same name and type in both files; defaults refer to either
+            Decl { name: "KBASE".into(), kind: DeclKind::Const(STy::I32, Lit::Int(9)) },
+            Decl { name: "KUNIT".into(), kind: DeclKind::Const(STy::String, Lit::Str("s".into())) },
+            Decl {
+                name: "Job".into(),
+                kind: DeclKind::Struct(vec![
+                    fd(1, "lvl", Optional, STy::I32, Lit::Const(1, "KBASE".into())),
+                    fd(2, "unit", Default, STy::String, Lit::Const(1, "KUNIT".into())),
+                    fd(3, "own_lvl", Optional, STy::I32, Lit::Const(0, "KBASE".into())),
+                    fd(4, "own_unit", Default, STy::String, Lit::Const(0, "KUNIT".into())),
+                    f(5, "sw", Default, named(0, "Switch")),
+                    f(16, "sw_far", Optional, named(0, "Switch")),
+                    f(17, "bytes", Default, list(STy::Byte)),
+                ]),
+            },
             Decl { name: "Text".into(), kind: DeclKind::Typedef(STy::String) },
             Decl { name: "NodeRef".into(), kind: DeclKind::Typedef(named(0, "Link")) },
             Decl { name: "MetaT".into(), kind: DeclKind::Typedef(named(1, "Meta")) },
